@@ -2881,17 +2881,20 @@ where
                 if let PeerScoreState::Active(peer_score) = &mut self.peer_score {
                     peer_score.graft(&peer_id, topic.clone());
                 }
-
-                // inform the handler of the peer being added to the mesh
-                // If the peer did not previously exist in any mesh, inform the handler
-                peer_added_to_mesh(
-                    peer_id,
-                    vec![topic],
-                    &self.mesh,
-                    &mut self.events,
-                    &self.connected_peers,
-                );
             }
+
+            // inform the handler of the peer being added to the mesh
+            // If the peer did not previously exist in any mesh, inform the handler.
+            // The mesh has already been updated for every topic in `topics`, so all of them
+            // have to be treated as new at once: checked one by one, each topic would find the
+            // peer "already in a mesh" through the others and the handler would never be told.
+            peer_added_to_mesh(
+                peer_id,
+                topics.iter().collect(),
+                &self.mesh,
+                &mut self.events,
+                &self.connected_peers,
+            );
             let rpc_msgs = topics.iter().map(|topic_hash| {
                 RpcOut::Graft(Graft {
                     topic_hash: topic_hash.clone(),
